@@ -58,7 +58,6 @@ PROPS["C13"] = dict(
     kani=[],
     trusted=["verus prelude interp.rs + closure.rs: RuntimeState method contracts (HashMap insert/remove/entry), closure::insert and Runner::ident contracts (assumed; Kani discharge units planned)",
              "call_runner: the closure body is havoc on the store with an arbitrary outcome"],
-    assumptions=["the two closure parameter identifiers are distinct (precondition distinct_params)"],
     not_covered=["compile-time half: Builder::compile_closure restoring state.local", "the five stdlib callers beyond the frame scan that they only run closures through Runner"],
     technique="contract-based deductive verification (Verus on mechanically extracted real bodies)",
 )
